@@ -3,7 +3,7 @@
    applied to, [sc_obs] the observed outcome). *)
 From Coq Require Import ZArith NArith String List Bool. Import ListNotations.
 From TP Require Export Base.PyVal Base.PyEq Fields.FieldAst Fields.SetChain Fields.Doc Fields.Domain
-  Struct.Shapes Struct.Instance Struct.Entry Check.Fieldchk.
+  Struct.Shapes Struct.Instance Struct.Entry Check.Fieldchk Struct.EntrySites Gen.EntrySites.
 
 Record scase := {
   sc_tbl : table;            (* re.match oracle for the strings/patterns of this case *)
@@ -165,3 +165,30 @@ Definition sbad_attrs (c : scase) : list nat :=
       end
   | _ => []
   end.
+
+(* The rows of today's entry-site table (Gen/EntrySites.v) that are not safe, by witness kind
+   (0 deser, 1 from_other(instance), 2 from_other(mapping), 3 clone, 4 cast_to, 5 copy, 6 deepcopy,
+   7 pickle): printed by the check; empty on a tree for which Props/C01.v builds. *)
+Definition all_site_kinds : list site_kind :=
+  [KDeser; KFromOther; KFromMapping; KClone; KCast; KCopy; KDeepCopy; KPickle].
+Definition unsafe_site_kinds : list nat :=
+  indices_where (fun k => negb (entry_site_ok entry_sites default_unpickle (wit_entry k))) all_site_kinds 0.
+
+(* All eight verdicts of a case in ONE evaluation (the harness used to evaluate eight separate
+   [indices_where] passes, each re-running the model and the spec): same definitions, shared
+   sub-results.  Order: smismatch, sviolation, sunstable, sin_dom, sin_thm_dom, sunmodelled,
+   scopy_raised, sstricter (Check/C01chkProofs.v: sflags_spec). *)
+Definition sflags (c : scase) : list bool :=
+  let m := smodel c in
+  let plan := entry_plan (sc_env c) (sc_cur c) (sc_entry c) in
+  let unm := match m with Raise Unmodelled => true | _ => false end in
+  let nonfin := snonfinite c in
+  let copyraised := match plan with PValue _ => negb (saccepted c) | _ => false end in
+  let dom := negb nonfin && cur_valid c && plan_dom plan in
+  let thm := dom && entry_dom (sre c) (sc_env c) (sc_cur c) (sc_entry c) in
+  let stricter := dom && negb thm &&
+                  match m, sc_obs c with Ok _, Raise x => is_te_ve x | _, _ => false end in
+  let viol := dom && sspec_fail c in
+  let mism := sc_cmp c && negb unm && negb nonfin && negb copyraised && negb stricter &&
+              negb (sres_equiv c m (sc_obs c)) in
+  [mism; viol; viol && negb thm; dom; thm; unm; copyraised; stricter].
